@@ -191,15 +191,18 @@ class Unsupported(Exception):
 
 class Region:
     _n = 0
-    def __init__(self, name, size, cells=None, writable=True):
+    def __init__(self, name, size, cells=None, writable=True, blob=None):
         Region._n += 1
         self.id = Region._n
         self.name, self.size, self.writable = name, size, writable
-        self.cells = dict(cells or {})   # offset -> (nbytes, bitvec)
+        self.cells = dict(cells or {})   # offset -> (nbytes, bitvec | Ptr)
+        self.blob = blob                 # z3 Array(BV64 -> BV8) for regions of symbolic size
+        self.freed = False
     def clone(self):
         r = Region.__new__(Region)
         r.id, r.name, r.size, r.writable = self.id, self.name, self.size, self.writable
         r.cells = dict(self.cells)
+        r.blob, r.freed = self.blob, self.freed
         return r
 
 class Ptr:
@@ -273,6 +276,15 @@ class Engine:
             self.oblige(st, fname + ".safety:null-deref", "safety", False)
             raise PathEnd()
         reg = st.regions[p.rid]
+        if reg.freed:
+            self.oblige(st, fname + ".safety:use-after-free", "safety", False, reg.name)
+            raise PathEnd()
+        if reg.blob is not None:
+            offb = self.offbv(p)
+            self.oblige(st, fname + ".safety:in-bounds", "safety", z3.And(z3.ULE(offb, offb + nbytes), z3.ULE(offb + nbytes, self.sizebv(reg))), "load " + reg.name)
+            bs = [z3.Select(reg.blob, offb + k) for k in range(nbytes)]
+            bs.reverse()
+            return z3.Concat(*bs) if nbytes > 1 else bs[0]
         w = nbytes * 8
         off = p.off
         if z3.is_expr(off):
@@ -319,6 +331,15 @@ class Engine:
             self.oblige(st, fname + ".safety:null-deref", "safety", False)
             raise PathEnd()
         reg = st.regions[p.rid]
+        if reg.freed:
+            self.oblige(st, fname + ".safety:use-after-free", "safety", False, reg.name)
+            raise PathEnd()
+        if reg.blob is not None:
+            offb = self.offbv(p)
+            self.oblige(st, fname + ".safety:in-bounds", "safety", z3.And(z3.ULE(offb, offb + nbytes), z3.ULE(offb + nbytes, self.sizebv(reg))), "store " + reg.name)
+            for k in range(nbytes):
+                reg.blob = z3.Store(reg.blob, offb + k, z3.Extract(8 * k + 7, 8 * k, val))
+            return
         off = p.off
         if z3.is_expr(off):
             off = z3.simplify(off)
@@ -345,6 +366,8 @@ class Engine:
                     # split the old cell into bytes
                     v = reg.cells[o][1]
                     del reg.cells[o]
+                    if isinstance(v, Ptr):
+                        continue
                     for k in range(n):
                         if not (off <= o + k < off + nbytes):
                             reg.cells[o + k] = (1, z3.Extract(k * 8 + 7, k * 8, v))
@@ -443,6 +466,29 @@ class Engine:
                     prev, label, idx = label, alts[0][1], 0
                     jumped = True
                     break
+                if kind == "split":
+                    # r[1]: list of (cond or None, {dest: value}, state-mutator or None)
+                    alts = [a for a in r[1] if a[0] is None or self.feasible(st.pc, a[0])]
+                    if not alts:
+                        raise PathEnd()
+                    for cond, binds, mut in alts[1:]:
+                        s2 = st.clone()
+                        if cond is not None:
+                            s2.pc.append(cond)
+                        e2 = dict(env)
+                        if mut:
+                            mut(s2, e2)
+                        e2.update(binds)
+                        work.append((s2, e2, label, prev, i + 1))
+                        self.paths += 1
+                    cond, binds, mut = alts[0]
+                    if cond is not None:
+                        st.pc.append(cond)
+                    if mut:
+                        mut(st, env)
+                    env.update(binds)
+                    i += 1
+                    continue
                 if kind == "ret":
                     on_return(st, r[1])
                     return
@@ -524,6 +570,8 @@ class Engine:
                 r = a - b
                 if "nsw" in flags and not (z3.is_bv_value(z3.simplify(a)) and z3.is_bv_value(z3.simplify(b))):
                     r = z3.If(z3.And(z3.BVSubNoOverflow(a, b), z3.BVSubNoUnderflow(a, b, True)), r, self.freshbv("poison", w))
+            elif op == "mul" and OPAQUE_MUL[0] and w == 64 and not (z3.is_bv_value(z3.simplify(a)) and z3.is_bv_value(z3.simplify(b))):
+                r = umul(a, b)
             elif op == "mul":
                 r = a * b
                 if "nsw" in flags and not (z3.is_bv_value(z3.simplify(a)) and z3.is_bv_value(z3.simplify(b))):
@@ -578,6 +626,10 @@ class Engine:
                 r = z3.ZeroExt(w1 - w0, a)
             elif op == "sext":
                 r = z3.SignExt(w1 - w0, a)
+                if OPAQUE_MUL[0] and not z3.is_bv_value(z3.simplify(a)):
+                    rr, _ = self.check(st.pc, a < 0, timeout=2000)
+                    if rr == z3.unsat:
+                        r = z3.ZeroExt(w1 - w0, a)
             else:
                 r = z3.Extract(w1 - 1, 0, a)
             env[dest] = z3.simplify(r)
@@ -664,7 +716,18 @@ class Engine:
             ty = m.group(1)
             p = self.operand(env, m.group(2) + "*", m.group(3))
             if ty.endswith("*"):
-                raise Unsupported("load of pointer in " + fn.name)
+                reg = st.regions.get(p.rid)
+                if reg is None or reg.blob is not None or not isinstance(p.off, int):
+                    raise Unsupported("load of pointer from untyped memory in " + fn.name)
+                if reg.freed:
+                    self.oblige(st, ftop + ".safety:use-after-free", "safety", False, reg.name)
+                    raise PathEnd()
+                self.oblige(st, ftop + ".safety:in-bounds", "safety", 0 <= p.off and p.off + 8 <= reg.size, "load ptr " + reg.name)
+                c = reg.cells.get(p.off)
+                if not c or not isinstance(c[1], Ptr):
+                    raise Unsupported("load of an unknown pointer in " + fn.name)
+                env[dest] = c[1]
+                return None
             env[dest] = self.load(st, p, type_size(ty), ftop)
             if ty == "i1":
                 env[dest] = z3.Extract(0, 0, env[dest])
@@ -673,7 +736,20 @@ class Engine:
             m = re.match(r"^store (?:volatile )?(.+?) (\S+), (.+?)\* (\S+)$", body)
             ty = m.group(1)
             if ty.endswith("*"):
-                raise Unsupported("store of pointer in " + fn.name)
+                v = self.operand(env, ty, m.group(2))
+                p = self.operand(env, m.group(3) + "*", m.group(4))
+                if p.rid == 0:
+                    self.oblige(st, ftop + ".safety:null-deref", "safety", False)
+                    raise PathEnd()
+                reg = st.regions[p.rid]
+                if reg.blob is not None or not isinstance(p.off, int):
+                    raise Unsupported("store of pointer to untyped memory in " + fn.name)
+                if reg.freed:
+                    self.oblige(st, ftop + ".safety:use-after-free", "safety", False, reg.name)
+                    raise PathEnd()
+                self.oblige(st, ftop + ".safety:in-bounds", "safety", 0 <= p.off and p.off + 8 <= reg.size, "store ptr " + reg.name)
+                self.write_cell(reg, p.off, 8, v)
+                return None
             v = self.operand(env, ty, m.group(2))
             p = self.operand(env, m.group(3) + "*", m.group(4))
             if ty == "i1":
@@ -712,6 +788,9 @@ class Engine:
 
     def off_eq(self, a, b):
         return a.off == b.off
+
+    def sizebv(self, reg):
+        return bv(reg.size, 64) if isinstance(reg.size, int) else reg.size
 
     def offbv(self, p):
         return bv(p.off, 64) if isinstance(p.off, int) else p.off
@@ -764,8 +843,30 @@ class Engine:
             return None
         if callee.startswith("llvm.memcpy") or callee.startswith("llvm.memmove") or callee == "ferret_memcpy" or callee == "memcpy":
             d, s, n = vals[0], vals[1], z3.simplify(vals[2])
-            if not z3.is_bv_value(n):
-                raise Unsupported("memcpy with symbolic size")
+            if d.rid == 0 or s.rid == 0:
+                self.oblige(st, ftop + ".safety:null-deref", "safety", False, "memcpy")
+                raise PathEnd()
+            dreg0, sreg0 = st.regions[d.rid], st.regions[s.rid]
+            if dreg0.blob is not None or sreg0.blob is not None or not z3.is_bv_value(n):
+                if dreg0.blob is None or sreg0.blob is None:
+                    raise Unsupported("memcpy between typed and untyped memory")
+                if dreg0.freed or sreg0.freed:
+                    self.oblige(st, ftop + ".safety:use-after-free", "safety", False, "memcpy")
+                    raise PathEnd()
+                do, so = self.offbv(d), self.offbv(s)
+                self.oblige(st, ftop + ".safety:in-bounds", "safety",
+                            z3.And(z3.ULE(do, do + n), z3.ULE(do + n, self.sizebv(dreg0))), "memcpy dst " + dreg0.name)
+                self.oblige(st, ftop + ".safety:in-bounds", "safety",
+                            z3.And(z3.ULE(so, so + n), z3.ULE(so + n, self.sizebv(sreg0))), "memcpy src " + sreg0.name)
+                self.fresh += 1
+                newc = z3.Array("heap!cp%d" % self.fresh, z3.BitVecSort(64), z3.BitVecSort(8))
+                i = z3.BitVec("i!cp%d" % self.fresh, 64)
+                st.pc.append(z3.ForAll([i], z3.Select(newc, i) == z3.If(z3.And(z3.ULE(do, i), z3.ULT(i, do + n)),
+                                                                        z3.Select(sreg0.blob, so + (i - do)), z3.Select(dreg0.blob, i))))
+                dreg0.blob = newc
+                if dest:
+                    env[dest] = d
+                return None
             n = n.as_long()
             if not isinstance(d.off, int) or not isinstance(s.off, int):
                 raise Unsupported("memcpy at symbolic offset")
@@ -821,6 +922,43 @@ class Engine:
                 o += k
             env[dest] = z3.simplify(z3.If(z3.And(*eqs), bv(0, 32), bv(1, 32)))
             return None
+        if callee == "malloc":
+            n = vals[0]
+            nc = z3.simplify(n)
+            def mk(st2, env2, n=n, dest=dest, nc=nc):
+                if z3.is_bv_value(nc) and nc.as_long() <= 256:
+                    reg = Region("malloc%d" % (Region._n + 1), nc.as_long())
+                    st2.regions[reg.id] = reg
+                    env2[dest] = Ptr(reg.id, 0)
+                    return
+                reg = Region("malloc%d" % (Region._n + 1), n, blob=z3.Array("heap!%d" % (Region._n + 1), z3.BitVecSort(64), z3.BitVecSort(8)))
+                st2.regions[reg.id] = reg
+                env2[dest] = Ptr(reg.id, 0)
+            return ("split", [(None, {}, mk), (None, {dest: NULL}, None)])
+        if callee == "free":
+            p = vals[0]
+            if p.rid != 0:
+                reg = st.regions[p.rid]
+                self.oblige(st, ftop + ".safety:free-of-interior-or-freed", "safety", (not reg.freed) and isinstance(p.off, int) and p.off == 0, reg.name)
+                reg.freed = True
+            return None
+        if callee == "realloc":
+            p, n = vals
+            def mk(st2, env2, p=p, n=n, dest=dest):
+                old = st2.regions.get(p.rid) if p.rid != 0 else None
+                content = old.blob if (old is not None and old.blob is not None) else z3.Array("heap!%d" % (Region._n + 1), z3.BitVecSort(64), z3.BitVecSort(8))
+                reg = Region("realloc%d" % (Region._n + 1), n, blob=content)
+                st2.regions[reg.id] = reg
+                if old is not None:
+                    old.freed = True
+                env2[dest] = Ptr(reg.id, 0)
+            if p.rid != 0:
+                reg0 = st.regions[p.rid]
+                self.oblige(st, ftop + ".safety:free-of-interior-or-freed", "safety", (not reg0.freed) and isinstance(p.off, int) and p.off == 0, reg0.name)
+                if reg0.blob is None:
+                    raise Unsupported("realloc of a typed region")
+            # realloc(p, 0) may free and return NULL; modelled as: either a new block or NULL with p untouched
+            return ("split", [(None, {}, mk), (None, {dest: NULL}, None)])
         if callee in self.fns and self.fns[callee].blocks and len(self.fns[callee].order) > 0 and sum(len(b) for b in self.fns[callee].blocks.values()) > 0:
             cf = self.fns[callee]
             # byval arguments are copies
@@ -845,17 +983,23 @@ class Contract:
     def __init__(self, name, ret, params):
         self.name, self.ret, self.params = name, ret, params
         self.requires, self.ensures, self.bounded, self.line = [], [], None, 0
+        self.lemmas = []
 
 def parse_contracts(path):
     out = []
     cur = None
+    last = None
     for ln, raw in enumerate(open(path), 1):
         s = raw.split("#", 1)[0].rstrip()
         if not s.strip():
             continue
         s = s.strip()
+        if s.startswith("option "):
+            if s[7:].strip() == "opaque-mul":
+                OPAQUE_MUL[0] = True
+            continue
         if s.startswith("func "):
-            m = re.match(r"^func (\w+)\s*:\s*(\w+)\s*<-\s*(.*)$", s)
+            m = re.match(r"^func (\w+)\s*:\s*([\w*]+)\s*<-\s*(.*)$", s)
             if not m:
                 raise SystemExit("%s:%d: bad func line" % (path, ln))
             params = []
@@ -870,19 +1014,45 @@ def parse_contracts(path):
             out.append(cur)
         elif s.startswith("requires "):
             cur.requires.append(s[9:].strip())
+            last = cur.requires
         elif s.startswith("ensures "):
             cur.ensures.append(s[8:].strip())
+            last = cur.ensures
+        elif s.startswith("lemma "):
+            cur.lemmas.append(s[6:].strip())
+            last = cur.lemmas
         elif s.startswith("bounded "):
             cur.bounded = s[8:].strip()
         else:
             # continuation
-            if cur and cur.ensures:
-                cur.ensures[-1] += " " + s
+            if cur and last:
+                last[-1] += " " + s
             else:
                 raise SystemExit("%s:%d: unknown line" % (path, ln))
     return out
 
 FUNC_BUDGET = int(os.environ.get('LLVC_FUNC_BUDGET', '90'))
+OPAQUE_MUL = [False]
+_UMUL = z3.Function("umul64", z3.BitVecSort(64), z3.BitVecSort(64), z3.BitVecSort(64))
+_MULOK = z3.Function("mulok64", z3.BitVecSort(64), z3.BitVecSort(64), z3.BoolSort())
+
+def _sorted2(a, b):
+    return (a, b) if str(a) <= str(b) else (b, a)
+
+def umul(a, b):
+    a, b = z3.simplify(a), z3.simplify(b)
+    if z3.is_bv_value(a) and z3.is_bv_value(b):
+        return z3.simplify(a * b)
+    a, b = _sorted2(a, b)
+    return _UMUL(a, b)
+
+def mulok(a, b):
+    a, b = z3.simplify(a), z3.simplify(b)
+    if z3.is_bv_value(a) and z3.is_bv_value(b):
+        return z3.BoolVal(a.as_long() * b.as_long() < 2**64)
+    a, b = _sorted2(a, b)
+    return _MULOK(a, b)
+
 WIDTH = {"i128": 128, "u128": 128, "i256": 256, "u256": 256}
 
 def limbs_to_bv(limbs):
@@ -911,7 +1081,42 @@ def spec_env():
         return a / b
     def trem(a, b):
         return z3.SRem(a, b)
-    return {"ult": z3.ULT, "ule": z3.ULE, "ugt": z3.UGT, "uge": z3.UGE, "slt": lambda a, b: a < b, "sgt": lambda a, b: a > b,
+    def wf(length, capacity, elem_size, alloc):
+        if OPAQUE_MUL[0]:
+            cap64 = z3.ZeroExt(32, capacity)
+            return z3.And(length >= 0, length <= capacity, capacity >= 0, elem_size != 0, z3.ULE(elem_size, bv(1 << 32, 64)),
+                          mulok(cap64, elem_size), alloc == umul(cap64, elem_size))
+        return wf_exact(length, capacity, elem_size, alloc)
+    def wf_exact(length, capacity, elem_size, alloc):
+        # representation invariant of ferret_array_t (C17): 0 <= length <= capacity, elem_size > 0,
+        # the data block holds exactly capacity*elem_size bytes and that product does not overflow
+        cap64 = z3.SignExt(32, capacity)
+        return z3.And(length >= 0, length <= capacity, capacity >= 0, elem_size != 0, z3.ULE(elem_size, bv(1 << 32, 64)),
+                      z3.BVMulNoOverflow(cap64, elem_size, False), alloc == cap64 * elem_size)
+    _q = [0]
+    def forall_i(f):
+        _q[0] += 1
+        i = z3.BitVec("q!%d" % _q[0], 64)
+        return z3.ForAll([i], f(i))
+    def mulmono(a, b, c):
+        # instance of: 0 <= a <= b and b*c < 2^64  ==>  a*c <= b*c and a*c < 2^64  (proved over the integers on every run)
+        return z3.Implies(z3.And(z3.ULE(a, b), z3.BVMulNoOverflow(b, c, False)), z3.And(z3.ULE(a * c, b * c), z3.BVMulNoOverflow(a, c, False)))
+    def mulstep_o(a, b, c):
+        return z3.Implies(z3.And(z3.ULT(a, b), mulok(b, c)),
+                          z3.And(mulok(a, c), z3.ULE(umul(a, c) + c, umul(b, c)), z3.ULE(umul(a, c), umul(a, c) + c)))
+    def mulbound(a, c):
+        # a <= 2^31 and c <= 2^32  ==>  a*c < 2^64   (integers, every run)
+        return z3.Implies(z3.And(z3.ULE(a, bv(1 << 31, 64)), z3.ULE(c, bv(1 << 32, 64))), mulok(a, c))
+    def mulzero(c):
+        return z3.And(mulok(bv(0, 64), c), umul(bv(0, 64), c) == 0)
+    def mulstep(a, b, c):
+        if OPAQUE_MUL[0]:
+            return mulstep_o(a, b, c)
+        # instance of: 0 <= a < b and b*c < 2^64  ==>  a*c + c <= b*c (no overflow anywhere)   (integers, every run)
+        return z3.Implies(z3.And(z3.ULT(a, b), z3.BVMulNoOverflow(b, c, False)),
+                          z3.And(z3.BVMulNoOverflow(a, c, False), z3.ULE(a * c + c, b * c), z3.ULE(a * c, a * c + c)))
+    return {"wf": wf, "forall_i": forall_i, "mulmono": mulmono, "mulstep": mulstep, "mulbound": mulbound, "mulzero": mulzero, "mul": umul, "Select": z3.Select, "mulok": mulok,
+            "ult": z3.ULT, "ule": z3.ULE, "ugt": z3.UGT, "uge": z3.UGE, "slt": lambda a, b: a < b, "sgt": lambda a, b: a > b,
             "sle": lambda a, b: a <= b, "sge": lambda a, b: a >= b,
             "shl": shl, "lshr": lshr, "ashr": ashr, "sext": sext, "zext": zext, "trunc": trunc, "udiv": z3.UDiv, "urem": z3.URem,
             "tdiv": tdiv, "trem": trem, "If": z3.If, "And": z3.And, "Or": z3.Or, "Not": z3.Not, "Implies": z3.Implies,
@@ -940,7 +1145,7 @@ def verify_contract(eng, fns, c, alias_cfg=None):
     ptr_regions = {}
     for k, (ty, name, is_out) in enumerate(c.params):
         base = ty.rstrip("*")
-        if ty.endswith("*"):
+        if ty.endswith("*") and base in WIDTH:
             n = WIDTH[base] // 64
             grp = alias_cfg[k] if alias_cfg else k
             if grp in ptr_regions:
@@ -968,8 +1173,41 @@ def verify_contract(eng, fns, c, alias_cfg=None):
                 st.regions[reg.id] = reg
                 args.append(Ptr(reg.id, 0))
                 pi += 1
+        elif ty == "array*":
+            null = bool(alias_cfg and alias_cfg.get(k) == "null")
+            ln, cp, es = z3.BitVec(name + "_length", 32), z3.BitVec(name + "_capacity", 32), z3.BitVec(name + "_elem_size", 64)
+            alloc = z3.BitVec(name + "_alloc", 64)
+            mem = z3.Array(name + "_mem", z3.BitVecSort(64), z3.BitVecSort(8))
+            specvals.update({name + "_null": z3.BoolVal(null), name + "_length": ln, name + "_capacity": cp, name + "_elem_size": es,
+                             name + "_alloc": alloc, name + "_mem": mem})
+            inputs[name + "_length"], inputs[name + "_capacity"], inputs[name + "_elem_size"], inputs[name + "_alloc"] = [ln], [cp], [es], [alloc]
+            if null:
+                args.append(NULL)
+            else:
+                D = Region(name + "_data", alloc, blob=mem)
+                st.regions[D.id] = D
+                S = Region(name, 24, {0: (8, Ptr(D.id, 0)), 8: (4, ln), 12: (4, cp), 16: (8, es)})
+                st.regions[S.id] = S
+                args.append(Ptr(S.id, 0))
+                specvals["__struct_" + name] = S.id
+                specvals["__data_" + name] = D.id
+            pi += 1
+        elif ty == "bytes":
+            null = bool(alias_cfg and alias_cfg.get(k) == "null")
+            alloc = z3.BitVec(name + "_alloc", 64)
+            mem = z3.Array(name + "_mem", z3.BitVecSort(64), z3.BitVecSort(8))
+            specvals.update({name + "_null": z3.BoolVal(null), name + "_alloc": alloc, name + "_mem": mem})
+            inputs[name + "_alloc"] = [alloc]
+            if null:
+                args.append(NULL)
+            else:
+                B = Region(name, alloc, blob=mem)
+                st.regions[B.id] = B
+                args.append(Ptr(B.id, 0))
+                specvals["__blob_" + name] = B.id
+            pi += 1
         else:
-            w = {"int": 32, "i32": 32, "u32": 32, "i64": 64, "u64": 64, "bool": 1}[base]
+            w = {"int": 32, "i32": 32, "u32": 32, "i64": 64, "u64": 64, "size": 64, "bool": 1}[base]
             v = z3.BitVec(name, w)
             inputs[name] = [v]
             specvals[name] = v
@@ -980,7 +1218,10 @@ def verify_contract(eng, fns, c, alias_cfg=None):
     env = spec_env()
     pre = dict(specvals)
     for r in c.requires:
-        st.pc.append(eval(r, env, dict(pre)))
+        st.pc.append(eval(r, {**env, **pre}))
+    for l in c.lemmas:
+        st.pc.append(eval(l, {**env, **pre}))
+        eng.notes.add("lemma instance assumed in the bit-vector queries: " + l)
     results = []
     start = len(eng.obls)
 
@@ -997,14 +1238,70 @@ def verify_contract(eng, fns, c, alias_cfg=None):
         elif c.ret in ("i64", "u64", "int", "i32"):
             post["result"] = rv
         for (ty, name, is_out) in c.params:
-            if ty.endswith("*"):
+            if ty.endswith("*") and ty.rstrip("*") in WIDTH:
                 reg = st2.regions[pre["__reg_" + name]]
                 n = WIDTH[ty.rstrip("*")] // 64
                 post[name + "_post"] = limbs_to_bv([eng.read_cell(st2, reg, i * 8, 8) for i in range(n)])
                 if is_out:
                     post[name] = post[name + "_post"]
+        def struct_view(prefix, sid):
+            S = st2.regions[sid]
+            def cell(off, n, dflt):
+                c = S.cells.get(off)
+                return c[1] if c and c[0] == n else dflt
+            dp = cell(0, 8, NULL)
+            post[prefix + "_length"] = cell(8, 4, z3.BitVec(prefix + "_length_undef", 32))
+            post[prefix + "_capacity"] = cell(12, 4, z3.BitVec(prefix + "_capacity_undef", 32))
+            post[prefix + "_elem_size"] = cell(16, 8, z3.BitVec(prefix + "_elem_size_undef", 64))
+            post[prefix + "_struct_freed"] = z3.BoolVal(S.freed)
+            if isinstance(dp, Ptr) and dp.rid != 0:
+                D = st2.regions[dp.rid]
+                post[prefix + "_data_null"] = z3.BoolVal(False)
+                post[prefix + "_alloc"] = eng.sizebv(D)
+                post[prefix + "_mem"] = D.blob if D.blob is not None else z3.Array(prefix + "_nomem", z3.BitVecSort(64), z3.BitVecSort(8))
+                post[prefix + "_data_freed"] = z3.BoolVal(D.freed)
+                post[prefix + "_data_off"] = eng.offbv(dp)
+                post["__rid_" + prefix] = dp.rid
+            else:
+                post[prefix + "_data_null"] = z3.BoolVal(True)
+                post[prefix + "_alloc"] = bv(0, 64)
+                post[prefix + "_mem"] = z3.Array(prefix + "_nomem", z3.BitVecSort(64), z3.BitVecSort(8))
+                post[prefix + "_data_freed"] = z3.BoolVal(False)
+                post[prefix + "_data_off"] = bv(0, 64)
+                post["__rid_" + prefix] = 0
+        for (ty, name, is_out) in c.params:
+            if ty == "array*" and ("__struct_" + name) in pre:
+                struct_view(name + "_post", pre["__struct_" + name])
+                post[name + "_data_moved"] = z3.BoolVal(post["__rid_" + name + "_post"] != pre["__data_" + name])
+                post[name + "_old_data_freed"] = z3.BoolVal(st2.regions[pre["__data_" + name]].freed)
+            elif ty == "array*":
+                for f in ("_length", "_capacity", "_elem_size", "_alloc", "_mem"):
+                    post[name + "_post" + f] = pre[name + f]
+                post[name + "_post_data_null"] = z3.BoolVal(True)
+                post[name + "_post_data_freed"] = z3.BoolVal(False)
+                post[name + "_post_struct_freed"] = z3.BoolVal(False)
+                post[name + "_data_moved"] = z3.BoolVal(False)
+                post[name + "_old_data_freed"] = z3.BoolVal(False)
+                post["__rid_" + name + "_post"] = 0
+        if c.ret == "ptr":
+            post["result_null"] = z3.BoolVal(rv.rid == 0)
+            post["result_off"] = eng.offbv(rv)
+            for (ty, name, is_out) in c.params:
+                if ty == "array*":
+                    post["result_in_" + name] = z3.BoolVal(rv.rid != 0 and rv.rid == post.get("__rid_" + name + "_post", -1))
+        if c.ret == "array*":
+            post["result_null"] = z3.BoolVal(rv.rid == 0)
+            if rv.rid != 0:
+                struct_view("result", rv.rid)
+                for (ty, name, is_out) in c.params:
+                    if ty == "bytes" and ("__blob_" + name) in pre:
+                        post["result_data_is_" + name] = z3.BoolVal(post["__rid_result"] == pre["__blob_" + name])
+            else:
+                for f, w in (("_length", 32), ("_capacity", 32), ("_elem_size", 64), ("_alloc", 64)):
+                    post["result" + f] = bv(0, w)
+                post["result_data_null"] = z3.BoolVal(True)
         for k, e in enumerate(c.ensures):
-            eng.oblige(st2, "%s.ensures#%d" % (c.name, k), "ensures", eval(e, env, post), c.name)
+            eng.oblige(st2, "%s.ensures#%d" % (c.name, k), "ensures", eval(e, {**env, **post}), c.name)
         eng.paths += 1
 
     eng.run_function(fn, args, st, 0, on_return, c.name)
@@ -1043,9 +1340,14 @@ def worker(job):
             continue
         fo["ssa_instrs"] = sum(len(b) for b in fns[c.name].blocks.values())
         # aliasing configurations for pointer parameters
-        ptr_idx = [k for k, (ty, _, _) in enumerate(c.params) if ty.endswith("*")]
+        ptr_idx = [k for k, (ty, _, _) in enumerate(c.params) if ty.endswith("*") and ty != "array*"]
         cfgs = [None]
-        if ptr_idx:
+        nullable = [k for k, (ty, _, _) in enumerate(c.params) if ty in ("array*", "bytes")]
+        if nullable:
+            cfgs = []
+            for combo in itertools.product(["valid", "null"], repeat=len(nullable)):
+                cfgs.append({k: v for k, v in zip(nullable, combo)})
+        elif ptr_idx:
             cfgs = []
             def parts(items):
                 if not items:
@@ -1068,7 +1370,9 @@ def worker(job):
                 obls, inputs = verify_contract(eng, fns, c, cfg)
                 fo["paths"] += eng.paths
                 tag = ""
-                if cfg and any(cfg[k] != k for k in cfg):
+                if cfg and nullable:
+                    tag = "[" + ",".join("%s=%s" % (c.params[k][1], cfg[k]) for k in cfg) + "]"
+                elif cfg and any(cfg[k] != k for k in cfg):
                     tag = "[alias " + ",".join("%s=%s" % (c.params[k][1], c.params[cfg[k]][1]) for k in cfg if cfg[k] != k) + "]"
                 # requires satisfiable?
                 for o in obls:
@@ -1132,6 +1436,7 @@ def worker(job):
             fo["error"], fo["error_kind"] = str(e), "missing-target"
         res["functions"].append(fo)
 
+    signal.alarm(0)
     fo = res["functions"][0] if res["functions"] else {"func": only_name, "error": "no contract", "error_kind": "missing-target"}
     return fo, [agg[n] for n in order], total_solver, vcs
 
@@ -1219,11 +1524,11 @@ def replay(repo, src, cpath, fname, model, alias_tag, scratch):
         else:
             post_env["result"] = z3.BitVecVal(outv["result"][0], {"int": 32, "i32": 32}.get(c.ret, 64))
     for rq in c.requires:
-        if z3.is_false(z3.simplify(eval(rq, env, dict(post_env)))):
+        if z3.is_false(z3.simplify(eval(rq, {**env, **post_env}))):
             return False, "model violates requires " + rq
     text = "harness output:\n" + r.stdout
     for k, e in enumerate(c.ensures):
-        v = z3.simplify(eval(e, env, dict(post_env)))
+        v = z3.simplify(eval(e, {**env, **post_env}))
         text += "ensures#%d %s -> %s\n" % (k, e, v)
         if z3.is_false(v):
             return True, "REPLAY-CONFIRMED: %s violates `%s`\n%s" % (fname, e, text)
@@ -1287,6 +1592,19 @@ def main():
         for ag in aggs:
             agg[ag["name"]] = ag
             order.append(ag["name"])
+    if any(c.lemmas for c in contracts if (not only or c.name in only)):
+        a_, b_, c_ = z3.Ints("a b c")
+        sl = z3.Solver()
+        sl.set("timeout", 20000)
+        sl.add(0 <= a_, a_ <= b_, 0 <= c_, b_ * c_ < 2**64,
+               z3.Not(z3.And(a_ * c_ <= b_ * c_, a_ * c_ < 2**64, z3.Implies(a_ < b_, a_ * c_ + c_ <= b_ * c_),
+                             z3.Implies(z3.And(b_ <= 2**31, c_ <= 2**32), b_ * c_ < 2**64))))
+        rl = sl.check()
+        name = "lemma.mulmono(integers)"
+        agg[name] = {"name": name, "kind": "lemma", "func": "(lemma)", "where": [], "instances": 1, "trivial": 0,
+                     "status": "unsat" if rl == z3.unsat else "unknown", "solvers": {"z3-5.1(api,NIA)": 1}, "secs": 0.0, "max_secs": 0.0, "failures": []}
+        order.append(name)
+        res["notes"].append("lemma mulmono is proved over the mathematical integers; its use on 64-bit vectors relies on: a product that does not overflow equals the integer product")
     res["obligations"] = [agg[n] for n in order]
     res["exec_secs"] = round(time.time() - t1 - total_solver, 2)
     res["solve_secs"] = round(total_solver, 2)
